@@ -54,8 +54,20 @@ class Aggregate:
         self.first_indices.extend(d.get("first_indices", []))
 
 
+def _known_signature(known, prop, sig):
+    import re
+    return any(k.get("property") == prop and k.get("status") == "known" and re.fullmatch(k["signature"], sig) for k in known)
+
+
 def _worker(engine, prop, base_seed, wid, nworkers, max_runs, deadline, outpath, stopflag, per_run_timeout, max_viol):
     agg = Aggregate()
+    known = []
+    try:
+        with open(os.path.join(VERIF_DIR, "known_findings.json")) as f:
+            known = json.load(f).get("findings", [])
+    except (OSError, ValueError):
+        pass
+    per_sig: dict[str, int] = {}
     try:
         engine.worker_init(wid)
         idx = wid
@@ -71,8 +83,21 @@ def _worker(engine, prop, base_seed, wid, nworkers, max_runs, deadline, outpath,
             agg.runs += 1
             if len(agg.first_indices) < 4:
                 agg.first_indices.append(idx)
-            if len(agg.violations) >= max_viol:
+            # keep at most two records per signature; stop early only for signatures that are not listed as known
+            kept, unknown = [], 0
+            per_sig.clear()
+            for rec in agg.violations:
+                sg = rec["violation"]["signature"]
+                per_sig[sg] = per_sig.get(sg, 0) + 1
+                if per_sig[sg] <= 2:
+                    kept.append(rec)
+                if not _known_signature(known, prop, sg):
+                    unknown += 1
+            agg.violations = kept
+            if unknown >= max_viol:
                 break
+            if unknown and not os.path.exists(stopflag):
+                open(stopflag, "w").close()
             idx += nworkers
         engine.worker_fini(wid)
     except BaseException:
@@ -141,8 +166,6 @@ def run_batch(engine, prop: str, base_seed: int, *, workers: int, budget_s: floa
             with open(out) as f:
                 total.merge_json(json.load(f))
             os.unlink(out)
-            if total.violations and not os.path.exists(stopflag):
-                open(stopflag, "w").close()
         else:
             failed.append(f"worker {w} left no report")
     for f in os.listdir(workdir):
